@@ -39,6 +39,12 @@ CHECKS.update({
    design_ref="DESIGN.md 4.4, 6 (C10)", note=MV_NOTE + " Pivots actually chosen by GetRangeSplitItems are not logged; the model covers a superset."),
 })
 
+CHECKS["C18"] = dict(
+   technique="TLA+ models Builder.tla / Merger.tla exhausted by TLC; every Add order and merger transition of the dumped graphs executed on the real builder / merge iterator; TLC trace validation (per-level chains, statistics, yields)",
+   text="Builder.tla transcribes Segment.Add and Assemble pointer by pointer and TLC proves for all shapes (empty leading/middle/trailing segments) and level assignments of the bounded instance that every level is the concatenation of the nodes of that height ending at the tail; Merger.tla transcribes the heap of (iterator,node) entries including what a re-seek leaves behind. The real builder is run on every Add order of the graph and on random shapes (concurrent filling, both memory modes) with per-level walks, statistics and follow-up Insert/Delete/Lookup/scan validated by TLC; the real merge iterator runs every transition of the merger graph plus random scans with re-seeks, each (Valid,item) validated against the sorted multiset union.",
+   design_ref="DESIGN.md 4.7, 6 (C18)",
+   note="Trusted: TLC, Json module, harness logging and the verif accessors (VerifNext, VerifLevel). Node levels are observed, not controlled. Bounds: exhaustive 3 segments/4-5 items/3 levels, 2-3 lists over 2-3 values to depth 5-6; traces <= 6 segments/44 items, <= 4 lists.")
+
 NOT_YET = "check not built yet (work in progress; see DESIGN.md section 8.1 build order)"
 
 def main():
